@@ -60,6 +60,10 @@ func parseStl(b []byte, enc Enc, normalBits bool) SFile {
 	body := b[84:]
 	n := len(body) / 50
 	f.Rem = len(body) - 50*n
+	if n > capRecs { // more records than the case can account for: log the first capRecs (> expected) of them
+		n = capRecs
+		capHit = true
+	}
 	for i := 0; i < n; i++ {
 		r := body[50*i : 50*i+50]
 		fl := make([]float32, 12)
